@@ -270,6 +270,7 @@ type c05Conn struct {
 	stuckRead  string // a persistent read error has been returned: every Read answers it again
 	stuckWrite string
 	spin       int // calls answered with a persistent error
+	onRead     func() // called at the start of every Read (runC05: where a statistics epoch may end)
 }
 
 func newC05Conn(w *c05World, isSrc bool) *c05Conn {
@@ -295,6 +296,9 @@ func (c *c05Conn) ev(s string) {
 }
 
 func (c *c05Conn) Read(p []byte) (int, error) {
+	if c.onRead != nil {
+		c.onRead()
+	}
 	if c.quiet && c.isClosed() {
 		return 0, c05Err("closed", "read")
 	}
@@ -536,6 +540,33 @@ func runC05(out *vlib.Out, s *c05Script) string {
 	lc := &c05LogCounter{}
 	logger := log.New(lc, "", 0)
 	stats := &tunnelStats{proxyStats: &ProxyStats{}}
+	// Statistics epochs while the direction runs (zz_verif_c05_stats_test.go has the histories proper): the
+	// session this direction belongs to is open — addSession before, removeSession after, as Proxy does —
+	// and, depending on the script, the stats loop ends an epoch before the second read / before every read
+	// (PrintAndReset) or before the last read (Reset).  What the closed epochs had counted is added back
+	// before the seven counters are compared below; the gauge must show the open session throughout.
+	var epochSum [7]int64
+	epochMode := (len(s.reads) + 2*len(s.writes) + 3*len(s.dls)) % 4
+	if s.up {
+		epochMode = (epochMode + 1) % 4
+	}
+	stats.proxyStats.addSession()
+	readCalls := 0
+	src.onRead = func() {
+		readCalls++
+		if !(epochMode == 2 || (epochMode == 1 && readCalls == 2) || (epochMode == 3 && readCalls == len(s.reads))) {
+			return
+		}
+		bk := &c05Book{open: 1}
+		before := c05LoadPS(stats.proxyStats)
+		for k := 0; k < 7; k++ {
+			bk.epoch[k], bk.total[k] = before[k+1], before[k+1]
+			epochSum[k] += before[k+1]
+		}
+		when := fmt.Sprintf("epoch boundary before read call %d of the direction", readCalls)
+		c05Epoch(out, stats.proxyStats, bk, epochMode != 3, 0, when, s.line())
+		c05CheckPS(out, bk, c05LoadPS(stats.proxyStats), when, s.line())
+	}
 	var wg sync.WaitGroup
 	wg.Add(1)
 	base := runtime.NumGoroutine()
@@ -666,6 +697,13 @@ func runC05(out *vlib.Out, s *c05Script) string {
 		}
 		have := [7]int64{ld(&ps.newBytesUp), ld(&ps.newBytesDown), ld(&ps.completeBytesUp), ld(&ps.completeBytesDown),
 			ld(&ps.zeroByteTunnelsUp), ld(&ps.zeroByteTunnelsDown), ld(&ps.completedSessions)}
+		for k := range have {
+			have[k] += epochSum[k] // what the epochs closed during the run had counted
+		}
+		ps.removeSession()
+		if g := ld(&ps.sessionsProxying); g != 0 {
+			fail("gauge-differs-from-open-sessions", fmt.Sprintf("after the session's removeSession the gauge of open proxy sessions shows %d (%d epoch boundaries fell into the session)", g, map[int]int{0: 0, 1: 1, 2: readCalls, 3: 1}[epochMode]))
+		}
 		n := int64(len(got))
 		want := [7]int64{0, n, 0, n, 0, b2i(n == 0), 0}
 		if s.up {
